@@ -127,6 +127,17 @@ class FaultListener(plumpy.ProcessListener):
     def on_process_killed(self, p, m): self._hit('on_process_killed')
 
 
+def _is_closed(p):
+    """public probe: registering a cleanup on a closed process raises ClosedError"""
+    try:
+        p.add_cleanup(lambda: None)
+        return False
+    except plumpy.ClosedError:
+        return True
+    except Exception:
+        return bool(getattr(p, '_closed', False))
+
+
 def run_case(case):
     """case = dict(fault=(kind, name, occurrence, variant) | None, schedule={pos: [ops]})"""
     logging.disable(logging.CRITICAL)
@@ -220,7 +231,7 @@ def run_case(case):
         exception_is_fault=p.exception() is p._fault_exc if p.state == ps.ProcessState.EXCEPTED else None,
         exception=type(p.exception()).__name__ if p.exception() is not None else None,
         fired=p._fault_fired is not None or lis.fired,
-        closed=bool(getattr(p, '_closed', None)),
+        closed=_is_closed(p),
         future=('pending' if not f.done() else 'cancelled' if f.cancelled() else
                 ('exc-fault' if f.exception() is p._fault_exc else 'exc:' + type(f.exception()).__name__) if f.exception() is not None else 'result'),
         task=('pending' if not task.done() else 'crashed:' + type(task.exception()).__name__ if (not task.cancelled() and task.exception() is not None)
